@@ -42,6 +42,8 @@ def rule_drain(ctx):
     ctx.rule(R, "the per-definition report cache is drained after the call that may fill it (CFG generation), and what was drained is what is written; every pass result is appended to that collection; the cache takes every report it is handed")
     rule_cache_append(ctx, R)
     rule_no_narrowing(ctx, R)
+    import c03run
+    c03run.rule(ctx, R)
     # a definition is lifted - and its lifting reports are produced - at most once: not again when its graph is cached,
     # and not again when an earlier attempt failed (its reports are cached then; every further reference by another
     # definition would otherwise display the same error once more)
